@@ -824,6 +824,35 @@ def rule_consulted_every_step(chk):
     scls_ = M.find_class(t, 'Solver')
     sv = M.find_func(M.inlined_class(scls_, keep=set(VOCAB_) | set(n_ for n_ in M.methods(scls_) if not n_.startswith('_'))), 'solve')
     nxt = [a for a in ast.walk(sv) if isinstance(a, ast.Assign) and U(a.targets[0]) == 'self.dt' and M.call_name(a.value) == 'self._get_timestep']
+    # the step of the next iteration is derived from the particles as the post-step callbacks leave them (they may refine h, write dt_adapt ...): inside the time loop the
+    # callbacks run before `self.dt = self._get_timestep()` - in the order the statements of the (helper-inlined) loop body are executed
+    loops_ = [w for w in ast.walk(sv) if isinstance(w, ast.While)]
+    order_ = {}
+
+    def number(stmts):
+        for st_ in stmts:
+            order_[id(st_)] = len(order_)
+            for f_ in ('body', 'orelse', 'finalbody'):
+                if isinstance(getattr(st_, f_, None), list):
+                    number(getattr(st_, f_))
+    if loops_:
+        number(loops_[0].body)
+    in_loop_dt = [a for a in nxt if id(a) in order_]
+    def iter_text(l_):
+        # what the loop runs over, a name standing for what was assigned to it last before the loop (`callbacks = self.post_step_callbacks` of a helper written back in place)
+        it_ = l_.iter
+        if isinstance(it_, ast.Name) and loops_:
+            prev = [a_ for a_ in ast.walk(loops_[0]) if isinstance(a_, ast.Assign) and len(a_.targets) == 1 and U(a_.targets[0]) == it_.id and id(a_) in order_
+                    and order_[id(a_)] < order_.get(id(l_), -1)]
+            if prev:
+                it_ = sorted(prev, key=lambda a_: order_[id(a_)])[-1].value
+        return U(it_)
+    posts = [l_ for l_ in ast.walk(loops_[0]) if isinstance(l_, ast.For) and 'post_step_callbacks' in iter_text(l_)] if loops_ else []
+    ok_order = bool(in_loop_dt) and bool(posts) and all(order_.get(id(p_), 10 ** 9) < order_[id(a)] for p_ in posts for a in in_loop_dt)
+    chk.decide(ok_order, 'fallback-to-fixed-step', 'next-step-after-the-post-step-callbacks', node=in_loop_dt[0] if in_loop_dt else sv, file=SOL, func='Solver.solve',
+               detail_bad='inside the time loop `self.dt = self._get_timestep()` does not come after the loop over self.post_step_callbacks: a callback that changes what the criteria '
+                          'depend on (refines h, writes dt_adapt / dt_cfl) is not seen by the step that follows it, which then exceeds what the particles allow',
+               detail_ok='post-step callbacks, then the next step')
     chk.decide(len(nxt) == 2, 'fallback-to-fixed-step', 'solver-asks-before-every-step', node=sv, file=SOL, func='Solver.solve',
                detail_bad='self.dt = self._get_timestep() sites: %d (one before the loop, one per iteration expected)' % len(nxt), detail_ok='before the loop and in every iteration')
 
@@ -838,11 +867,15 @@ def main(chk):
     n = rule_folds(chk, INT, t, [('Integrator', 'compute_h_minimum'), ('Integrator', '_get_explicit_dt_adapt')])
     chk.floor('folds in integrator.py', n, 2)
     # _my_max identity for empty input
-    mm = M.find_method(t, 'Integrator', '_my_max')
-    rets = [U(r.value) for r in ast.walk(mm) if isinstance(r, ast.Return)]
-    chk.decide(any(r.startswith('-') for r in rets) and any('max' in r for r in rets), 'fold-identity', 'Integrator._my_max',
-               node=mm, file=INT, func='_my_max', detail_bad='empty input does not map to a value below every admissible maximum',
-               detail_ok='empty -> negative sentinel')
+    mm = M.find_method(t, 'Integrator', '_my_max', required=False)
+    if mm is not None:
+        rets = [U(r.value) for r in ast.walk(mm) if isinstance(r, ast.Return)]
+        chk.decide(any(r.startswith('-') for r in rets) and any('max' in r for r in rets), 'fold-identity', 'Integrator._my_max',
+                   node=mm, file=INT, func='_my_max', detail_bad='empty input does not map to a value below every admissible maximum',
+                   detail_ok='empty -> negative sentinel')
+    else:
+        # the helper was written back into its only caller: what an empty array contributes is decided by the model run of _get_dt_adapt_factors (rule_provenance)
+        chk.note('Integrator._my_max does not exist as a method; the empty-array case is decided by the model run of _get_dt_adapt_factors')
     # (private helpers of the integrator inlined: a refresh that lives in an extracted helper is seen where it is called)
     icls_raw = M.find_class(t, 'Integrator')
     icls_inl = M.inlined_class(icls_raw, keep=set(('_get_dt_adapt_factors', '_get_explicit_dt_adapt', '_my_max')) | set(n_ for n_ in M.methods(icls_raw) if not n_.startswith('_')))
